@@ -396,3 +396,19 @@ def c05_15(ctx, r):
     from .c01 import c01_8
 
     c01_8(ctx, r)
+
+
+@rule(P, "C05.16", "X0", "the recovery / trigger commands JADE spawns are well-formed: registered commands, defined options, blank-separated fragments", min_obligations=5)
+def c05_16(ctx, r):
+    from ..thorough import sweep_commands
+
+    out, _ = sweep_commands(ctx, P)
+    for ob in out.obligations:
+        r.obligations.append(ob)
+    for f in out.findings:
+        f2 = dict(f)
+        f2["rule"] = "C05.16"
+        f2["clause"] = "one try-submit-jobs (the documented recovery, also offered by show-status) either hands at least one new batch to the HPC or completes the submission"
+        r.findings.append(f2)
+    if out.verdict == "UNKNOWN":
+        raise AnalysisError("C05.16", out.error or "command sweep failed")
